@@ -249,6 +249,13 @@ def run(prog, ctx):
                    "pair restores each state position into the field it was taken from (otherwise --threads N > 1 yields other "
                    "objects than the in-process path of --threads 1); same analysis as C15/Z1 pickle state")
     n4 = c15.z1_pickle_state(prog, ctx, tag="O4")
+    ctx.rule("O6", "memory modes: the compact multimapper record is read from the saved stream in the default mode and built from the full object "
+                   "under --high_memory; the abridged reader takes every field from the wire position the full format writes it to (rule Z1 of "
+                   "C15, object codecs) and assigns the same attributes as the in-memory constructor (rule M4 of C08)")
+    from ..engine import wire as _wire
+    c15.z1_objects(prog, ctx, _wire.WireCtx(prog), tag="O6")
+    from . import c08 as _c08
+    _c08.m4(prog, ctx, tag="O6")
     others = [q for m, q, f in prog.all_functions() if q.endswith(".__getstate__") or q.endswith(".__reduce__") or q.endswith(".__reduce_ex__")]
     if [q for q in others if q != "BasicReadAssignment.__getstate__"]:
         ctx.fail("O4", prog.func(*[(m.rel, q) for m, q, f in prog.all_functions() if q in others and q != "BasicReadAssignment.__getstate__"][0]),
